@@ -10,7 +10,7 @@
      - phasor_eq_transfer_sum: with several sources of that frequency it is the sum
        over the sources of  source phasor * (transfer function at j omega). *)
 Require Import LT.FieldSec LT.Circuit LT.MNA LT.PhasorHom.
-Require Import Gen.StampsGen Gen.C01model Gen.C01 Gen.C01net Gen.C14 Gen.C14reg.
+Require Import Gen.StampsGen Gen.C01model Gen.C01 Gen.C01net Gen.C14 Gen.C14reg Gen.ImmittanceGen Gen.C14imm.
 Local Open Scope Z_scope.
 Local Open Scope bool_scope.
 
@@ -129,9 +129,26 @@ Lemma wsum_to_src_v (l : list ssrc) i :
 Proof. induction l as [|e l IH]; cbn [map wsum fold_right]; [reflexivity|].
   unfold vplus, vscale at 1. rewrite IH. reflexivity. Qed.
 
+(* link between the immittance table and the stamp parameters: if the s-domain context of an
+   R/L/C/Y/Z/CPE component carries the table's admittance and impedance (what cpt.Y / cpt.Z
+   return for a Laplace kind), then the parameters of its ac context [ac_ctx] are exactly what
+   cpt.Y / cpt.Z return in the ac sub-netlist (select -> substitute j omega = h s) *)
+Theorem rlc_ac_par (pw : K -> K -> K) (pw' : K' -> K' -> K') (l : leaf) (c : sctx K) (s a0 a1 jw0 : K) (s' : K') (k : akind) :
+  pD h s -> pD h a0 -> pD h a1 -> pD h (pw s a1) -> h (pw s a1) = pw' (h s) (h a1) ->
+  h s <> f0 -> h a0 <> f0 -> h (pw s a1) <> f0 ->
+  cpt_Y pw true KS l s jw0 a0 a1 = Some (par c pY) -> cpt_Z pw true KS l s jw0 a0 a1 = Some (par c pZ) ->
+  cpt_Y pw' false k l s' (h s) (h a0) (h a1) = Some (par (ac_ctx h c) pY) /\
+  cpt_Z pw' false k l s' (h s) (h a0) (h a1) = Some (par (ac_ctx h c) pZ).
+Proof.
+  intros Ds D0 D1 Dp Hp Ns N0 Np EY EZ. split.
+  - rewrite (ac_is_s_at_jw_Y K K' h pw pw' s a0 a1 Ds D0 Dp Hp Ns N0 Np l k s' f0 jw0), EY. reflexivity.
+  - rewrite (ac_is_s_at_jw_Z K K' h pw pw' s a0 a1 Ds D0 Dp Hp Ns N0 Np l k s' f0 jw0), EZ. reflexivity.
+Qed.
+
 End C14net.
 
 Print Assumptions assemble_ac.
 Print Assumptions phasor_eq_transfer.
 Print Assumptions transported_is_physical.
 Print Assumptions phasor_eq_transfer_sum.
+Print Assumptions rlc_ac_par.
